@@ -39,6 +39,8 @@ def py_list_op(lst, method, args):
         new.remove(args[0])
     elif method == "delitem":
         del new[args[0]]
+    elif method == "delslice":
+        del new[args[0]:args[1]]
     elif method == "setitem":
         new[args[0]] = args[1]
     elif method == "clear":
@@ -151,6 +153,8 @@ def apply_live(objs, e, spec_before):
             lst.remove(objs[args[0]])
         elif m == "delitem":
             del lst[args[0]]
+        elif m == "delslice":
+            del lst[args[0]:args[1]]
         elif m == "setitem":
             lst[args[0]] = objs[args[1]]
         elif m == "clear":
@@ -160,17 +164,25 @@ def apply_live(objs, e, spec_before):
     elif op == "add_up":
         n = e["up"]
         up = S.construct(n, spec_before["objs"][n], objs)   # created right before being added
-        objs[n] = up
         how = e.get("how", "assign")
         system = objs["system"]
-        if how == "assign":
-            system.usage_patterns = list(system.usage_patterns) + [up]
-        elif how == "append":
-            system.usage_patterns.append(up)
-        elif how == "iadd":
-            system.usage_patterns += [up]
-        else:
-            raise ValueError(how)
+        try:
+            if how == "assign":
+                system.usage_patterns = list(system.usage_patterns) + [up]
+            elif how == "append":
+                system.usage_patterns.append(up)
+            elif how == "iadd":
+                system.usage_patterns += [up]
+            else:
+                raise ValueError(how)
+        except BaseException:
+            # the caller discards a usage pattern it could not add (otherwise its journey and jobs keep counting it)
+            try:
+                up.self_delete()
+            except Exception:
+                pass
+            raise
+        objs[n] = up
     elif op == "remove_up":
         n = e["up"]
         system = objs["system"]
